@@ -200,7 +200,7 @@ def gen_project(rnd, n_tags=12, programs=1, junk=True, big_tags=None, iid_base=N
     for spec in (big_tags or []):
         t = named[spec["udt"]] if "udt" in spec else spec["type"] if "type" in spec else atomic(spec["code"])
         add(spec["name"], t, spec["dims"])
-    progs = ["Main", "P2", "Prog_odd"][:programs]
+    progs = ["Prog_odd", "Main", "P2"][:programs]      # the first name begins with letters of "Program:" (prefix vs character-set handling)
     for p in progs:
         add("Program:" + p, atomic(0), [], kind="program", typeword=0x68)
     if programs and rnd.random() < 0.3:
